@@ -211,6 +211,11 @@ func (h *harness) checkOneKey(class, fixedKey string, c *niCase, comp compiler.N
 		}
 	}
 	propfail := got != expect
+	if c.light && !propfail && got == "0" && class != "same-context" {
+		// expensive verifier: a rejection the property demands is not re-derived by the model
+		// (that would run the sigma verifier a second time)
+		return
+	}
 	if d != nil {
 		t1 := time.Now()
 		mv := h.modelVerdict(c, comp, cs, which, d)
@@ -348,7 +353,16 @@ func (h *harness) niCase(c *niCase, comp compiler.Name, variant int, r *vh.Rng, 
 	}
 	// every (selected) byte of the proof changed
 	masks := []byte{0x01, 0x80, 0xff, 0x20}
+	if c.light {
+		flipAll, flipBudget = false, 3
+	}
 	for _, pos := range flipPositions(r, len(proof), flipAll, flipBudget) {
+		if c.light && pos < 16 && flipBudget < 16 {
+			// flipPositions always adds the first/last 16 bytes; a light case keeps 3 of them
+			if pos%8 != 3 {
+				continue
+			}
+		}
 		m := masks[r.Intn(len(masks))]
 		if r.Chance(1, 4) {
 			m = byte(1 + r.Intn(255))
@@ -374,6 +388,11 @@ func (h *harness) niCase(c *niCase, comp compiler.Name, variant int, r *vh.Rng, 
 	for k, v := range c.restructure(comp, orig) {
 		structural[k] = v
 	}
+	if c.light {
+		for _, k := range []string{"append-self", "half", "drop-first-byte", "e-extended", "e-empty", "extra-field", "array-instead-of-map", "reencoded"} {
+			delete(structural, k)
+		}
+	}
 	for _, k := range sortedKeys(structural) {
 		p2 := structural[k]
 		d2 := c.decode(comp, p2)
@@ -389,6 +408,12 @@ func (h *harness) niCase(c *niCase, comp compiler.Name, variant int, r *vh.Rng, 
 		budget := 48
 		if h.thorough || h.a.Search {
 			budget = 400
+		}
+		if c.light {
+			budget = 3
+			if h.thorough || h.a.Search {
+				budget = 40
+			}
 		}
 		for _, l := range selectLeaves(leaves, budget) {
 			p2 := l.alter(proof, 0x01)
@@ -413,7 +438,7 @@ func (h *harness) niCase(c *niCase, comp compiler.Name, variant int, r *vh.Rng, 
 	}
 	// forged Fiat–Shamir proofs: a simulated transcript whose challenge was derived without
 	// the commitment / without the statement / in no transcript at all must be rejected
-	if comp == fiatshamir.Name {
+	if comp == fiatshamir.Name && !c.light {
 		h.forgeries(c, variant, cs, r)
 	}
 }
